@@ -240,11 +240,15 @@ def canon(n, env=None, depth=0, subst=True):
         args = [rec(x) for x in c[1:]]
         name = n.get('callee_name') or me.get('member', '?')
         base = (me.get('c') or [None])[0]
-        if env is not None and getattr(env, 'fs', None) is not None and me.get('k') == 'MemberExpr' and (
-                base is None or base.get('k') == 'CXXThisExpr') and depth < 8:
-            e = _inline_accessor(env.fs, n.get('callee'), args)
-            if e is not None:
-                return e
+        if env is not None and getattr(env, 'fs', None) is not None and me.get('k') == 'MemberExpr' and depth < 8:
+            if base is None or base.get('k') == 'CXXThisExpr':
+                e = _inline_accessor(env.fs, n.get('callee'), args)
+                if e is not None:
+                    return e
+            elif not args:
+                fld = _getter_field(env.fs, n.get('callee'))
+                if fld is not None:
+                    return ('.', rec(base), fld)
         if me.get('k') != 'MemberExpr':
             return ('mcall', name, rec(me)) + tuple(args)
         if base is None or base.get('k') == 'CXXThisExpr':
@@ -285,6 +289,22 @@ def _inline_accessor(fs, callee, args):
     e = canon(c[0]['c'][0], None)
     sub = {p['name']: a for p, a in zip(f['params'], args)}
     return _subst_names(e, sub)
+
+
+def _getter_field(fs, callee):
+    """name of the field a trivial getter `T get() const { return field; }` returns, else None."""
+    f = fs.fns.get(callee or '')
+    if f is None or not f.is_def or f['params']:
+        return None
+    c = (f.body or {}).get('c') or []
+    if len(c) != 1 or c[0].get('k') != 'ReturnStmt' or not c[0].get('c'):
+        return None
+    e = c[0]['c'][0]
+    while e.get('k') == 'CXXConstructExpr' and is_copy_ctor(e):
+        e = e['c'][0]
+    if e.get('k') == 'MemberExpr' and e.get('is_field') and ((e.get('c') or [None])[0] is None or (e.get('c') or [{}])[0].get('k') == 'CXXThisExpr'):
+        return e['member'].rsplit('::', 1)[-1]
+    return None
 
 
 def _subst_names(t, sub):
